@@ -223,3 +223,20 @@ Definition map_ret (f : str -> str) (r : option ty) : option ty :=
   match r with Some t => Some (map_ty f t) | None => None end.
 Definition map_mty (f : str -> str) (m : list ty * option ty) : list ty * option ty :=
   (map (map_ty f) (fst m), map_ret f (snd m)).
+
+(* ------------------------------------------------------------------ *)
+(* JarSuperProv::remap(re, &Vec<JarSuperProv>): per provider a fresh IndexMap; the key and every
+   super type go through `re.map_class`; `IndexSet::insert` keeps the first occurrence of a name,
+   `IndexMap::insert` on an existing key replaces the value and keeps the position.  A provider is
+   the list of its entries in iteration order; the Vec stays a list of providers ([supers] works
+   on their concatenation). *)
+Fixpoint put_first {V} (k : str) (v : V) (l : list (str * V)) : list (str * V) :=
+  match l with
+  | [] => [(k, v)]
+  | (k', v') :: l' => if str_eqb k k' then (k', v) :: l' else (k', v') :: put_first k v l'
+  end.
+Definition set_of (l : list str) : list str :=
+  fold_left (fun s x => if existsb (str_eqb x) s then s else s ++ [x]) l [].
+Definition remap_prov (f : str -> str) (p : inh) : inh :=
+  fold_left (fun P e => put_first (f (fst e)) (set_of (map f (snd e))) P) p [].
+Definition remap_provs (f : str -> str) (ps : list inh) : list inh := map (remap_prov f) ps.
